@@ -94,10 +94,10 @@ Definition reg_code (o : outcome unit) : N :=
 
 Definition svc_agrees (r : svcres) (o : obsres) : bool :=
   match r, o with
-  | SvcInvalidArgument, ObsSvc 3 None => true
-  | SvcInternal, ObsSvc 13 None => true
-  | SvcOk v, ObsSvc 0 (Some w) => v =? w
-  | SvcPanic, ObsSvc 99 None => true
+  | SvcInvalidArgument, ObsSvc c None => c =? 3
+  | SvcInternal, ObsSvc c None => c =? 13
+  | SvcOk v, ObsSvc c (Some w) => (c =? 0) && (v =? w)
+  | SvcPanic, ObsSvc c None => c =? 99
   | _, _ => false
   end.
 
@@ -230,6 +230,20 @@ Definition mined_ok (c : case) (s : sendres) (w : receiptres) : bool :=
   | _, _ => false
   end.
 
+(* the one answer of the client that is outside its contract: a nil receipt without an error.
+   The code dereferences it; the real EvmClient.WaitForReceipt cannot return it (see
+   props/C11.json, level_note). *)
+Definition nil_receipt (s : sendres) (w : receiptres) : bool :=
+  match s, w with SHash _, WNil => true | _, _ => false end.
+
+(* Clauses.  yes-without:{min,stake,compare}: a yes that is not backed by both values read through
+   the wanted requests, decoded, minimum <= amount.  value: a Send that is not the wanted one, or
+   more than one.  ok-on-failed-receipt: success reported without the sent transaction's receipt
+   with status 1 having been waited for.  panic-on-receipt: a failure is not "reported as an
+   error" when the call panics instead.
+   A refusal although both values were read and minimum <= amount is NOT a clause: the statement
+   only bounds the yes answers ("answer yes only when ..."); such a divergence from the model is
+   reported as a mismatch ([agrees]), not as a violation of C11. *)
 Definition violation1 (c : case) : option string :=
   match op c with
   | OpCheck addr a1 a2 =>
@@ -242,31 +256,35 @@ Definition violation1 (c : case) : option string :=
           | _, None => Some "yes-without:stake"%string
           | Some mn, Some st => if mn <=? st then None else Some "yes-without:compare"%string
           end
-      | ObsBool false =>
-          match m, s with
-          | Some mn, Some st => if mn <=? st then Some "refused-sufficient"%string else None
-          | _, _ => None
-          end
       | _ => None
       end
   | OpRegister amt s w =>
       if negb (sends_ok c (Some amt)) then Some "value"%string
       else match res c with
-           | ObsReg 0 => if mined_ok c s w then None else Some "ok-on-failed-receipt"%string
+           | ObsReg o =>
+               if o =? 0 then (if mined_ok c s w then None else Some "ok-on-failed-receipt"%string)
+               else if (o =? 2) && negb (nil_receipt s w) then Some "panic-on-receipt"%string
+               else None
            | _ => None
            end
   | OpRegisterVia amt s w late =>
       (* judged against what the chain holds, not against what the client handed over *)
       if negb (sends_ok c (Some amt)) then Some "value"%string
       else match res c with
-           | ObsReg 0 => if mined_ok c s w then None else Some "ok-on-failed-receipt"%string
+           | ObsReg o =>
+               if o =? 0 then (if mined_ok c s w then None else Some "ok-on-failed-receipt"%string)
+               else if (o =? 2) && negb (nil_receipt s w) then Some "panic-on-receipt"%string
+               else None
            | _ => None
            end
   | OpSvcRegister owner valid parsed s w a =>
       let requested := if valid then match parsed with Some z => Some (Some z) | None => None end else None in
       if negb (sends_ok c requested) then Some "value"%string
       else match res c with
-           | ObsSvc 0 _ => if mined_ok c s w then None else Some "ok-on-failed-receipt"%string
+           | ObsSvc code _ =>
+               if code =? 0 then (if mined_ok c s w then None else Some "ok-on-failed-receipt"%string)
+               else if (code =? 99) && negb (nil_receipt s w) then Some "panic-on-receipt"%string
+               else None
            | _ => None
            end
   | _ => None
